@@ -286,3 +286,31 @@ Section Lines.
     destruct (fcc [] [SEMI] false (rstrip R)) as [v1 r1] eqn:F. simpl fst in VAL. rewrite VAL. reflexivity.
   Qed.
 End Lines.
+
+(** ** error lines: a line without '=' or ':' that is neither a comment, a section header nor a
+    continuation makes no handler call (it only sets the return value of ini_parse) *)
+Section ErrorLines.
+  Variable c : config_consts.
+
+  Lemma fcc_rest_head chars inl s : forall ws0, match snd (fcc chars inl ws0 s) with [] => True | x :: _ => In x s /\ (memb x chars = true \/ memb x inl = true) end.
+  Proof.
+    induction s as [|b s IH]; intros ws0; simpl; [exact I|].
+    destruct (memb b chars || (ws0 && memb b inl)) eqn:E.
+    - simpl. split; [now left|]. apply orb_prop in E as [E|E]; [now left|right]. now apply andb_prop in E as [_ E].
+    - specialize (IH (is_space b)). destruct (fcc chars inl (is_space b) s) as [p r]. simpl in *. destruct r; [exact I|]. destruct IH as [A B]. split; [now right|assumption].
+  Qed.
+
+  Theorem error_line_no_event st ln bom l1 :
+    (forall b, In b (lskip (rstrip l1)) -> b <> EQB /\ b <> COLONB) ->
+    (nonempty (st_prev st) && (bom || negb (Nat.eqb (length (lskip (rstrip l1))) (length (rstrip l1))))) = false ->
+    snd (ini_body c st ln bom l1) = [].
+  Proof.
+    intros NS NC. unfold ini_body. destruct (lskip (rstrip l1)) as [|b rest] eqn:S; [reflexivity|].
+    destruct (memb b (ini_start_comment c)); [reflexivity|]. rewrite NC.
+    destruct (beq b LBR).
+    - destruct (fcc [RBR] (ini_inline_comment c) false rest) as [sec r]. destruct r as [|x r]; [reflexivity|]. destruct (beq x RBR); reflexivity.
+    - pose proof (fcc_rest_head [EQB; COLONB] (ini_inline_comment c) (b :: rest) false) as H.
+      destruct (fcc [EQB; COLONB] (ini_inline_comment c) false (b :: rest)) as [nm r]. simpl in H. destruct r as [|x v]; [reflexivity|].
+      destruct H as [Hin _]. destruct (NS x Hin) as [N1 N2]. apply beq_neq in N1, N2. now rewrite N1, N2.
+  Qed.
+End ErrorLines.
